@@ -219,6 +219,17 @@ func (fr *frame) callStatic(fn *ssa.Function, args []*Val, bindings []*Val, st *
 		return fr.inline(fn, args, bindings, resT, st, reach, pos)
 	}
 	key := externKey(fn)
+	// a few string functions have native SMT meanings
+	switch key {
+	case "strings.HasPrefix":
+		return &Val{t: fmt.Sprintf("(str.prefixof %s %s)", args[1].t, args[0].t)}
+	case "strings.HasSuffix":
+		return &Val{t: fmt.Sprintf("(str.suffixof %s %s)", args[1].t, args[0].t)}
+	case "strings.Contains":
+		return &Val{t: fmt.Sprintf("(str.contains %s %s)", args[0].t, args[1].t)}
+	case "strings.EqualFold":
+		u.abstract("strings.EqualFold")
+	}
 	if ec := u.eng.externs[key]; ec != nil {
 		return fr.applyExtern(key, ec, args, resT, st, reach, pos, c)
 	}
@@ -256,6 +267,7 @@ func (fr *frame) inline(fn *ssa.Function, args []*Val, bindings []*Val, resT typ
 	}
 	nf := u.newFrame(fn, fr.depth+1, fr.pure, prefix)
 	nf.binders = fr.binders
+	nf.lets = fr.lets
 	u.inlineStack = append(u.inlineStack, fn)
 	res, exitReach, exitSt := nf.run(args, bindings, st, reach)
 	u.inlineStack = u.inlineStack[:len(u.inlineStack)-1]
@@ -317,12 +329,17 @@ func (fr *frame) applyContract(fn *ssa.Function, ct *Contract, args []*Val, resT
 // havocMods havocs everything a callee may modify.
 func (fr *frame) havocMods(ms ModSet, args []*Val, sig *types.Signature, st *State, reach string) {
 	u := fr.u
+	pre := st.clone()
+	fr.havocNames(ms, pre, st, "havoc", reach)
 	var keys []string
 	for k := range ms {
 		keys = append(keys, k)
 	}
 	sort.Strings(keys)
-	argT := sigArgTypes(sig)
+	var argT []types.Type
+	if sig != nil {
+		argT = sigArgTypes(sig)
+	}
 	for _, k := range keys {
 		switch {
 		case k == "*":
@@ -349,10 +366,6 @@ func (fr *frame) havocMods(ms ModSet, args []*Val, sig *types.Signature, st *Sta
 			if i < len(args) {
 				fr.havocElems(args[i], argT[i], st, reach)
 			}
-		default:
-			srt := u.modSort(k, ms[k])
-			u.heapGet(st, k, srt)
-			st.h[k] = u.declare(k+"@havoc", srt)
 		}
 	}
 }
@@ -419,6 +432,23 @@ func (fr *frame) applyExtern(key string, ec *ExternContract, args []*Val, resT t
 			t := fr.evalSpec(r, args, st, nil)
 			u.oblige(fr.obName("pre", key+"."+r.Label), "pre", r.Tags, reach, t, fr.pos(pos), r.Text)
 		}
+	}
+	if ec.Pure && ec.ByValue {
+		var vt []types.Type
+		var vv []*Val
+		for i, a := range args {
+			if pt, ok := argT[i].Underlying().(*types.Pointer); ok {
+				vt = append(vt, pt.Elem())
+				vv = append(vv, &Val{t: u.read(st, fr.ptrLV(a, argT[i]))})
+			} else {
+				vt = append(vt, argT[i])
+				vv = append(vv, a)
+			}
+		}
+		res := fr.ufApply("ext:"+key, vt, vv, resT, st)
+		fr.assumeResultWF(res, resT, st, reach)
+		fr.assumeEnsures(ec, args, res, resT, st, nil, reach)
+		return res
 	}
 	if ec.Pure || fr.pure {
 		res := fr.ufApply("ext:"+key, argT, args, resT, st)
@@ -533,6 +563,7 @@ func (fr *frame) evalSpec(c *Clause, args []*Val, st *State, pre *State) string 
 	nf := u.newFrame(c.Fn, fr.depth+1, true, fr.prefix)
 	nf.preState = pre
 	nf.binders = fr.binders
+	nf.lets = fr.lets
 	if len(args) != len(c.Fn.Params) {
 		u.warn("clause %s: argument count mismatch (%d vs %d)", c.FnName, len(args), len(c.Fn.Params))
 		u.eng.stale = append(u.eng.stale, c.FnName+": arity")
@@ -560,17 +591,22 @@ func (fr *frame) callSpecBuiltin(fn *ssa.Function, args []*Val, resT types.Type,
 		nf := u.newFrame(f.fn, fr.depth+1, true, fr.prefix)
 		nf.binders = fr.binders + 1
 		nf.preState = fr.preState
+		var lets [][2]string
+		nf.lets = &lets
 		res, _, _ := nf.run([]*Val{{t: k}}, f.bindings, st, "true")
 		body := "true"
 		if len(res) > 0 {
 			body = res[0].t
+		}
+		for i := len(lets) - 1; i >= 0; i-- {
+			body = fmt.Sprintf("(let ((%s %s)) %s)", lets[i][0], lets[i][1], body)
 		}
 		rng := fmt.Sprintf("(and (<= %s %s) (< %s %s))", lo, k, k, hi)
 		if fn.Name() == "forall" {
 			return &Val{t: fmt.Sprintf("(forall ((%s Int)) (=> %s %s))", k, rng, body)}
 		}
 		return &Val{t: fmt.Sprintf("(exists ((%s Int)) (and %s %s))", k, rng, body)}
-	case "sameSlice":
+	case "sameSlice", "sameCerts", "sameElems", "sameStrings", "sameBytes":
 		return &Val{t: eq(args[0].t, args[1].t)}
 	case "ns":
 		return args[0]
@@ -685,12 +721,13 @@ func (fr *frame) builtinAppend(c *ssa.CallCommon, args []*Val, st *State, reach 
 	cont := u.declare("appended", "(Array Int "+es+")")
 	k := u.fresh("k")
 	// prefix copied from a
-	u.assume(reach, fmt.Sprintf("(forall ((%s Int)) (! (=> (and (<= 0 %s) (< %s %s)) (= (select %s %s) (select (select %s (s-arr %s)) (+ (s-off %s) %s)))) :pattern ((select %s %s))))",
-		k, k, k, la, cont, k, h, a.t, a.t, k, cont, k))
+	at := s.atFn(et)
+	u.assume(reach, fmt.Sprintf("(forall ((%s Int)) (! (=> (and (<= 0 %s) (< %s %s)) (= (select %s %s) (%s (select %s (s-arr %s)) %s %s))) :pattern ((select %s %s))))",
+		k, k, k, la, cont, k, at, h, a.t, a.t, k, cont, k))
 	if !bIsString {
 		k2 := u.fresh("k")
-		u.assume(reach, fmt.Sprintf("(forall ((%s Int)) (! (=> (and (<= %s %s) (< %s (+ %s %s))) (= (select %s %s) (select (select %s (s-arr %s)) (+ (s-off %s) (- %s %s))))) :pattern ((select %s %s))))",
-			k2, la, k2, k2, la, lb, cont, k2, h, b.t, b.t, k2, la, cont, k2))
+		u.assume(reach, fmt.Sprintf("(forall ((%s Int)) (! (=> (and (<= %s %s) (< %s (+ %s %s))) (= (select %s %s) (%s (select %s (s-arr %s)) %s (- %s %s)))) :pattern ((select %s %s))))",
+			k2, la, k2, k2, la, lb, cont, k2, at, h, b.t, b.t, k2, la, cont, k2))
 	}
 	u.heapSet(st, name, hs, fmt.Sprintf("(store %s %s %s)", h, arr, cont))
 	nl := u.define("applen", "Int", fmt.Sprintf("(+ %s %s)", la, lb))
@@ -733,6 +770,7 @@ func (fr *frame) devirtualise(c *ssa.CallCommon, recv *Val, args []*Val, resT ty
 		}
 		nf := u.newFrame(im.fn, fr.depth+1, true, fr.prefix)
 		nf.binders = fr.binders
+		nf.lets = fr.lets
 		res, _, _ := nf.run([]*Val{rv}, nil, st, "true")
 		if len(res) != 1 {
 			return nil
